@@ -1819,10 +1819,18 @@ class Interp:
                 elif isinstance(sub, ast.Subscript) and isinstance(sub.ctx, (ast.Store, ast.Del)) and isinstance(sub.value, ast.Name):
                     add(sub.value.id)
                 elif isinstance(sub, ast.Attribute) and isinstance(sub.ctx, ast.Store):
+                    if spec is not None and getattr(spec, "elementwise", None) is not None and isinstance(sub.value, ast.Name) \
+                            and sub.value.id in spec.elementwise:
+                        continue        # store to a field of the loop's own element: replayed on the designated witnesses at loop exit
                     if spec is not None and spec.havoc is None:
                         raise Unsupported(f"loop body stores to attribute .{sub.attr} (line {sub.lineno}); "
                                           f"the loop spec needs a custom havoc for object state")
         return out
+
+    @staticmethod
+    def _stores_elem_attr(stmts, names):
+        return any(isinstance(sub, ast.Attribute) and isinstance(sub.ctx, ast.Store) and isinstance(sub.value, ast.Name) and sub.value.id in names
+                   for s in stmts for sub in ast.walk(s))
 
     def havoc_value(self, old, name):
         """A fresh value of the same kind as `old`."""
@@ -1918,7 +1926,10 @@ class Interp:
         if isinstance(itv, TheoryObj) and itv.theory == "symiter" and spec is None:
             # no contract for this loop: cut it with the trivial invariant (everything it assigns or mutates is havocked)
             self.ctx.use(f"loop at line {node.lineno} has no invariant: cut with 'true' (all assigned state havocked)")
-            return self._for_cut(node, env, LoopSpec(invariant=lambda I, e, it: [], name="uncontracted"), itv)
+            sp = LoopSpec(invariant=lambda I, e, it: [], name="uncontracted")
+            if isinstance(node.target, ast.Name) and not any(isinstance(x, ast.Break) for b in node.body for x in ast.walk(b)):
+                sp.elementwise = [node.target.id]
+            return self._for_cut(node, env, sp, itv)
         if symbolic_iter:
             raise Unsupported(f"for loop at line {node.lineno} over a collection of unknown size needs an invariant")
         broke = False
@@ -2003,6 +2014,21 @@ class Interp:
             it["final"] = True
             if getattr(spec, "on_exit", None):
                 spec.on_exit(self, env, it)
+            if getattr(spec, "elementwise", None) and "symiter" in it and self._stores_elem_attr(node.body, spec.elementwise):
+                # the body writes fields of its own element only (plus havocked locals): at loop exit each designated witness
+                # that is a member has been through the body exactly once
+                c.use("T-py/for: a loop whose body stores only to fields of its own element acts on each element separately "
+                      "(elements of a list are distinct objects)")
+                for w, inl in list(itv.fields.get("witnesses", [])):
+                    if not isinstance(w, SObj):
+                        continue
+                    isin = inl if isinstance(inl, bool) else c.decide(inl, "witness-went-through-the-loop")
+                    if isin:
+                        self.assign(node.target, w, env)
+                        try:
+                            self.exec_block(node.body, env)
+                        except ContinueSig:
+                            pass
             self.exec_block(node.orelse, env)
             return
         if isinstance(itv, SSeq):
